@@ -103,7 +103,7 @@ func init() {
 		Level:       "Static rules deciding named necessary conditions: which quantity is accumulated into which statistic (units), that the two lanes never cross anywhere between builder/merger, file record, loader, Segment fields and CollectionStats, and that Merge adds component-wise unconditionally. Partial: that the sums are numerically right for a given input is a value property.",
 		Explanation: "STAT-UNITS identifies the maps of the two lanes from the arguments of persistFields and the stores to Segment.fieldDocs/fieldFreqs (provenance of map creation sites), then classifies the increment of every MapUpdate on them: the frequency lane must add Field.Length()/Posting.Frequency(), the document lane 1 per element of a per-document set or the tracker's cardinality. STAT-LANES checks the record order in persistFields, the decode order in loadFields, initSegmentBase's parameter-to-field mapping, the three CollectionStats fields and accessors, unconditional component-wise Merge, and that the merger clears the per-field document tracker before use on every path. ESCAPE-FRESH shows the statistics maps a built Segment keeps are fresh allocations on every path of the pooled builder (never kept, emptied or re-used from an earlier batch), so a later build cannot rewrite the statistics of an earlier segment. STAT-UNITS also requires that merged statistics are keyed by the merged field index, never by an input segment's own field id.",
 		NotCovered:  "numeric correctness of the sums for particular inputs/deletions (value property)",
-		Uses:        []RuleUse{{"STAT-UNITS", ""}, {"STAT-LANES", ""}, {"TAIL-READ-BOUNDED", ""}, {"ESCAPE-FRESH", ""}},
+		Uses:        []RuleUse{{"TERM-FREQ-ACCUMULATED", ""}, {"STAT-UNITS", ""}, {"STAT-LANES", ""}, {"TAIL-READ-BOUNDED", ""}, {"ESCAPE-FRESH", ""}},
 	})
 }
 
@@ -169,7 +169,7 @@ func init() {
 		Level:       "Static rules deciding named NECESSARY conditions of the behaviour, not the behaviour: writer and reader derive the chunk size from the same three quantities and index chunks the same way; the location byte-count prefix counts exactly the quantities that are encoded; _id first / sorted field order; sibling literals agree; the reused encoders are fully reset. The equality of postings, frequencies, norms and locations for every batch is a value property and is NOT decided.",
 		Explanation: "CHUNK-AGREE checks the getChunkSize call of the builder (s.chunkMode, GetCardinality of the very bitmap writePostings serialises, len(s.results) — and that newWithChunkMode records the same mode and length in the footer) against the reader's (footer.chunkMode, GetCardinality of the bitmap just deserialised, footer.numDocs), that both encoders are re-sized with the result, and that both sides compute the chunk index as docNum / chunkSize (CHUNK-INDEX for the encoders). LENPREFIX-AGREE compares, as a multiset of normalised expression trees, the four arguments of totalUvarintBytes with the four values encoded per location and pins numUvarintBytes' shape. FIELD-ORDER, SIBLING-LITERAL, RESET-COMPLETE (the shared encoders) and ONEHIT-AWARE complete the set.",
 		NotCovered:  "the two-pass accumulation arithmetic, completeness of terms/postings, norms, terms with more than 1024 documents (values)",
-		Uses:        []RuleUse{{"STALE-LEN", ""}, {"APPEND-RESULT-USED", ""}, {"CHUNK-AGREE", ""}, {"CHUNK-INDEX", ""}, {"LENPREFIX-AGREE", ""}, {"FIELD-ORDER", ""}, {"SIBLING-LITERAL", ""}, {"RESET-COMPLETE", ""}, {"ESCAPE-FRESH", ""}},
+		Uses:        []RuleUse{{"TERM-FREQ-ACCUMULATED", ""}, {"LOCS-FLAG-AGREE", ""}, {"STALE-LEN", ""}, {"APPEND-RESULT-USED", ""}, {"CHUNK-AGREE", ""}, {"CHUNK-INDEX", ""}, {"LENPREFIX-AGREE", ""}, {"FIELD-ORDER", ""}, {"SIBLING-LITERAL", ""}, {"RESET-COMPLETE", ""}, {"ESCAPE-FRESH", ""}},
 	})
 	prop(&Property{
 		ID:          "C02",
@@ -178,7 +178,7 @@ func init() {
 		Level:       "Static rules deciding named NECESSARY conditions: every document number written is the remapped one, location field ids use the merged map, doc values are re-added under new numbers and dropped ones skipped, the parallel per-iterator slices come from one filtered result, the byte-copy path is taken only for identical field lists without deletions, 1-hit encoding only under its full conjunction, chunk size from the footer quantities, terms inserted only with postings. Observational equality with a rebuild is a value property and is NOT decided.",
 		Explanation: "REMAP (mergeTermFreqNormLocs, buildMergedDocVals visitor, persistMergedRestField), CHUNK-AGREE (prepareNewTerm traced through its unique call chain to the values stored in the merged footer), LENPREFIX-AGREE, FASTPATH-GUARD (+ mergeFields compares every field of every segment), INSERT-GUARD, ONEHIT-GUARD, FIELD-ORDER (mergeFields), STORED-OFFSET-SOURCE, FIELDID-LANE, DV-SECTION-COMPLETE.",
 		NotCovered:  "k-way enumeration order, the re-encoding arithmetic, correctness of the stored-field byte copy (values)",
-		Uses:        []RuleUse{{"STALE-LEN", ""}, {"APPEND-RESULT-USED", ""}, {"RANGE-INDEX-BASE", ""}, {"ITER-SCRATCH", ""}, {"REMAP", ""}, {"CHUNK-AGREE", ""}, {"LENPREFIX-AGREE", ""}, {"FASTPATH-GUARD", ""}, {"INSERT-GUARD", ""}, {"ONEHIT-GUARD", ""}, {"FIELD-ORDER", ""}, {"STORED-OFFSET-SOURCE", ""}, {"BLOCK-CURSOR", ""}, {"FIELDID-LANE", ""}, {"DV-SECTION-COMPLETE", ""}, {"PER-FIELD-COMPLETE", ""}, {"LOOP-BOUND-AGREE", ""}, {"PARALLEL-APPEND", ""}, {"REMAP-TABLE-READONLY", ""}, {"TERM-BOUNDARY", ""}, {"ENUM-SKIP-GUARD", ""}, {"RESET-COMPLETE", ""}},
+		Uses:        []RuleUse{{"LOCS-FLAG-AGREE", ""}, {"STALE-LEN", ""}, {"APPEND-RESULT-USED", ""}, {"RANGE-INDEX-BASE", ""}, {"ITER-SCRATCH", ""}, {"REMAP", ""}, {"CHUNK-AGREE", ""}, {"LENPREFIX-AGREE", ""}, {"FASTPATH-GUARD", ""}, {"INSERT-GUARD", ""}, {"ONEHIT-GUARD", ""}, {"FIELD-ORDER", ""}, {"STORED-OFFSET-SOURCE", ""}, {"BLOCK-CURSOR", ""}, {"FIELDID-LANE", ""}, {"DV-SECTION-COMPLETE", ""}, {"PER-FIELD-COMPLETE", ""}, {"LOOP-BOUND-AGREE", ""}, {"PARALLEL-APPEND", ""}, {"REMAP-TABLE-READONLY", ""}, {"TERM-BOUNDARY", ""}, {"ENUM-SKIP-GUARD", ""}, {"RESET-COMPLETE", ""}},
 	})
 	prop(&Property{
 		ID:          "C07",
@@ -187,7 +187,7 @@ func init() {
 		Level:       "Static rules deciding named NECESSARY conditions: writers and reader chunk doc values by the same constant, the chunk index is docNum/that constant, terms are stored unmodified followed by the separator the reader splits on, every recorded section has its trailer, the chunk cache is coherent across chunk switches, per-segment readers are indexed by that segment's field id, merged doc values are re-added under new numbers. Which terms a document gets back (binary search, ordering) is a value property and is NOT decided.",
 		Explanation: "DV-FACTOR-AGREE, CHUNK-INDEX (content coder), DV-SEPARATOR, DV-SECTION-COMPLETE, FIELDID-LANE, REMAP (DV-REMAP part), CLONE-DISCIPLINE, CACHE-COHERENT, RESET-COMPLETE (cloneInto) and the two doc-value pairs of WIRE-AGREE. SCRATCH-OWNED shows a decompressed chunk is cached only by the reader owning the destination buffer; DV-SECTION-COMPLETE also requires the start offset to be captured before any byte of the section can be written (progressive chunk writes included).",
 		NotCovered:  "the header binary search, chunk-cache logic across visiting orders beyond coherence, sorted term order (values)",
-		Uses:        []RuleUse{{"SCRATCH-OWNED", ""}, {"DV-FACTOR-AGREE", ""}, {"CHUNK-INDEX", ""}, {"DV-SEPARATOR", ""}, {"DV-SECTION-COMPLETE", ""}, {"FIELDID-LANE", ""}, {"REMAP", ""}, {"CLONE-DISCIPLINE", ""}, {"CACHE-COHERENT", ""}, {"WIRE-AGREE", ""}, {"RESET-COMPLETE", ""}, {"RE-EXTENSION", ""}, {"STATE-AFTER-FALLIBLE", ""}},
+		Uses:        []RuleUse{{"BLOCK-CURSOR", ""}, {"SCRATCH-OWNED", ""}, {"DV-FACTOR-AGREE", ""}, {"CHUNK-INDEX", ""}, {"DV-SEPARATOR", ""}, {"DV-SECTION-COMPLETE", ""}, {"FIELDID-LANE", ""}, {"REMAP", ""}, {"CLONE-DISCIPLINE", ""}, {"CACHE-COHERENT", ""}, {"WIRE-AGREE", ""}, {"RESET-COMPLETE", ""}, {"RE-EXTENSION", ""}, {"STATE-AFTER-FALLIBLE", ""}},
 	})
 }
 
@@ -199,6 +199,6 @@ func init() {
 		Level:       "Static rules deciding named NECESSARY conditions of navigation: the read path and both skip paths consume exactly what the writer emits per posting in each stream, locations are skipped by the recorded byte count, no flag combination reaches a missing decoder, the 1-hit cursor is consumed on every return, an exhausted cursor is never advanced, Count subtracts the excluded intersection, exclusions are applied into a fresh bitmap. WHICH posting Next/Advance(d) returns for a given history is a relation over runtime cursor values and is NOT decided.",
 		Explanation: "ENTRY-ARITY compares the per-posting shape written by tfEncoder/locEncoder (2 uvarints; byte-count prefix + 4 uvarints per location) with readFreqNormHasLocs, skipFreqNormReadHasLocs, readLocation, the location loop of nextAtOrAfter and the skip in currChunkNext. READER-FLAG-GUARD computes interprocedurally which iterator methods need includeLocs/includeFreqNorm and proves no exported method reaches an unguarded decoder use. ITER-END proves the clean fast path is entered only under postings == nil || postings.postings == ActualBM (boolean abstraction; ReplaceActual can change ActualBM at any time), every return of the 1-hit branch leaves the hit consumed, every Actual.Next() is behind HasNext(), Count subtracts |postings ∩ except| for both encodings, and exclusions are applied as AndNot into a fresh bitmap. REPLAY-COUNT checks that the replay counter of the clean path is reset by comparing chunk numbers of postings, not the loaded chunk. LENPREFIX-AGREE, CHUNK-AGREE (reader side), ONEHIT-AWARE, CACHE-COHERENT and STATE-AFTER-FALLIBLE cover the prefix, chunk index, encoding dispatch and chunk switching the navigation relies on. REUSED-POSTING shows every field of the Posting the iterator reuses is stored in the current call on each path that hands it out.",
 		NotCovered:  "which posting is returned by Next/Advance for a given call history, the skip counting across chunks beyond the operands of its reset test (sameChunkNexts arithmetic), lock-step advance of the two cursors under exclusions (values)",
-		Uses:        []RuleUse{{"ENTRY-ARITY", ""}, {"READER-FLAG-GUARD", ""}, {"ITER-END", ""}, {"REPLAY-COUNT", ""}, {"REUSED-POSTING", ""}, {"LENPREFIX-AGREE", ""}, {"CHUNK-AGREE", ""}, {"ONEHIT-AWARE", ""}, {"CACHE-COHERENT", ""}, {"STATE-AFTER-FALLIBLE", ""}},
+		Uses:        []RuleUse{{"LOCS-FLAG-AGREE", ""}, {"ENTRY-ARITY", ""}, {"READER-FLAG-GUARD", ""}, {"ITER-END", ""}, {"REPLAY-COUNT", ""}, {"REUSED-POSTING", ""}, {"LENPREFIX-AGREE", ""}, {"CHUNK-AGREE", ""}, {"ONEHIT-AWARE", ""}, {"CACHE-COHERENT", ""}, {"STATE-AFTER-FALLIBLE", ""}},
 	})
 }
